@@ -85,3 +85,9 @@ Properties/C06.vos Properties/C06.vok Properties/C06.required_vos: Properties/C0
 Properties/C14.vo Properties/C14.glob Properties/C14.v.beautified Properties/C14.required_vo: Properties/C14.v Base/Prelude.vo Hash/Sha.vo Generated/Tables.vo Model/Decoder.vo Model/Derive.vo Model/Otp.vo Model/Ocra.vo Spec/Rfc4226.vo Spec/Rfc6287.vo Proofs/DeriveProofs.vo Proofs/OtpProofs.vo Proofs/OcraProofs.vo Model/Errors.vo
 Properties/C14.vio: Properties/C14.v Base/Prelude.vio Hash/Sha.vio Generated/Tables.vio Model/Decoder.vio Model/Derive.vio Model/Otp.vio Model/Ocra.vio Spec/Rfc4226.vio Spec/Rfc6287.vio Proofs/DeriveProofs.vio Proofs/OtpProofs.vio Proofs/OcraProofs.vio Model/Errors.vio
 Properties/C14.vos Properties/C14.vok Properties/C14.required_vos: Properties/C14.v Base/Prelude.vos Hash/Sha.vos Generated/Tables.vos Model/Decoder.vos Model/Derive.vos Model/Otp.vos Model/Ocra.vos Spec/Rfc4226.vos Spec/Rfc6287.vos Proofs/DeriveProofs.vos Proofs/OtpProofs.vos Proofs/OcraProofs.vos Model/Errors.vos
+Proofs/Base32Proofs.vo Proofs/Base32Proofs.glob Proofs/Base32Proofs.v.beautified Proofs/Base32Proofs.required_vo: Proofs/Base32Proofs.v Base/Prelude.vo Spec/Rfc4648.vo Model/Decoder.vo
+Proofs/Base32Proofs.vio: Proofs/Base32Proofs.v Base/Prelude.vio Spec/Rfc4648.vio Model/Decoder.vio
+Proofs/Base32Proofs.vos Proofs/Base32Proofs.vok Proofs/Base32Proofs.required_vos: Proofs/Base32Proofs.v Base/Prelude.vos Spec/Rfc4648.vos Model/Decoder.vos
+Properties/C07.vo Properties/C07.glob Properties/C07.v.beautified Properties/C07.required_vo: Properties/C07.v Base/Prelude.vo Hash/Sha.vo Spec/Rfc4648.vo Model/Decoder.vo Model/Derive.vo Model/Otp.vo Model/Ocra.vo Model/Errors.vo Proofs/Base32Proofs.vo
+Properties/C07.vio: Properties/C07.v Base/Prelude.vio Hash/Sha.vio Spec/Rfc4648.vio Model/Decoder.vio Model/Derive.vio Model/Otp.vio Model/Ocra.vio Model/Errors.vio Proofs/Base32Proofs.vio
+Properties/C07.vos Properties/C07.vok Properties/C07.required_vos: Properties/C07.v Base/Prelude.vos Hash/Sha.vos Spec/Rfc4648.vos Model/Decoder.vos Model/Derive.vos Model/Otp.vos Model/Ocra.vos Model/Errors.vos Proofs/Base32Proofs.vos
